@@ -44,6 +44,7 @@ type vpWorld struct {
 	plainWriter                                                  bool // writers without an Abort method
 	files                                                        []MaybeFile
 	iterFails                                                    bool
+	iterFailsAnywhere, iterFailed                                bool
 	updateWrites                                                 []WriteOperation
 	updateDeletes                                                []DeleteOperation
 	ctxSeen                                                      []context.Context
@@ -98,8 +99,15 @@ func vpFileID(p []byte) int {
 	if len(p) == 2 && p[0] == 'F' {
 		return int(p[1])
 	}
+	if len(p) == 2 && p[0] == 'S' { // a source file of a merge (not created through this stub)
+		return vpSrcBase + int(p[1])
+	}
 	return -1
 }
+
+const vpSrcBase = 100
+
+func vpSrcPointer(i int) []byte { return []byte{'S', byte(i)} }
 
 func (s *vpStore) CreateFile(ctx context.Context) (io.WriteCloser, []byte, error) {
 	s.w.ctxSeen = append(s.w.ctxSeen, ctx)
@@ -190,7 +198,8 @@ func (m *vpMeta) GetMaybeFilesForQuery(ctx context.Context, q *QueryPrefilter) i
 	return func(yield func(MaybeFile, error) bool) {
 		m.w.log(evIter, -1)
 		for i, f := range m.w.files {
-			if m.w.iterFails && i == len(m.w.files)-1 && nondetBool() {
+			if m.w.iterFails && (m.w.iterFailsAnywhere || i == len(m.w.files)-1) && nondetBool() {
+				m.w.iterFailed = true
 				yield(MaybeFile{}, vpInjected())
 				return
 			}
